@@ -849,3 +849,61 @@ def reaches(cfg, first, second) -> bool:
         seen.add(id(x))
         st.extend(y for y, _ in x.succ)
     return False
+
+
+def carried_param_terms(model: Model, ctx: TermCtx, outer: FuncInfo, cls, method: FuncInfo, pname: str) -> List[Term]:
+    """The terms that, inside `method` of the visitor class `cls` which `outer` instantiates and applies, denote
+    outer's parameter `pname`: the closure variable (class nested in outer), or an attribute that __init__ fills,
+    unchanged and only there, from a constructor argument to which outer passes that parameter."""
+    out: List[Term] = [("free", pname)]
+    init = cls.methods.get("__init__")
+    if init is None or len(init.pos_params) < 2 or not method.pos_params:
+        return out
+    fi_a = ctx.analysis(init)
+    ofa = ctx.analysis(outer)
+    for n in own_nodes(init):
+        if isinstance(n, ast.Assign) and len(n.targets) == 1 and isinstance(n.targets[0], ast.Attribute) and isinstance(n.targets[0].value, ast.Name) and n.targets[0].value.id == init.pos_params[0]:
+            v = strip_sites(fi_a.term_of(n.value))
+            if v[0] != "param" or v[1] not in init.pos_params[1:]:
+                continue
+            k = init.pos_params.index(v[1]) - 1
+            attr = n.targets[0].attr
+            others = [x for f_ in cls.methods.values() for x in own_nodes(f_) if isinstance(x, ast.Attribute) and x.attr == attr and isinstance(x.ctx, (ast.Store, ast.Del)) and x is not n.targets[0]]
+            if others:
+                continue
+            for c in calls_in(outer):
+                if isinstance(c.func, ast.Name) and c.func.id == cls.name:
+                    actual = c.args[k] if k < len(c.args) else next((kw.value for kw in c.keywords if kw.arg == v[1]), None)
+                    if actual is not None and strip_sites(ofa.term_of(actual)) == ("param", pname):
+                        out.append(("attr", ("param", method.pos_params[0]), attr))
+    return out
+
+
+def unit_loops(ctx: TermCtx, model: Model, fi: FuncInfo):
+    """[(owner, for-loop, term of what it iterates over, in fi's vocabulary)] for fi and the private helpers it calls
+    directly (a helper's parameters are replaced by the arguments of its one call in fi)."""
+    from .terms import subst
+
+    fa = ctx.analysis(fi)
+    out = []
+    for g in unit(model, fi, depth=1):
+        ga = ctx.analysis(g)
+        binding = None
+        if g is not fi:
+            sites = [(c_, call, skip) for c_, call, skip in call_sites_of(model, g) if c_ is fi]
+            if len(sites) != 1:
+                continue
+            _c, call, skip = sites[0]
+            binding = {}
+            for p_, a in zip(g.pos_params[skip:], call.args):
+                binding[("param", p_)] = strip_sites(fa.term_of(a))
+            for k in call.keywords:
+                if k.arg:
+                    binding[("param", k.arg)] = strip_sites(fa.term_of(k.value))
+            if skip and fi.pos_params:
+                binding[("param", g.pos_params[0])] = ("param", fi.pos_params[0])
+        for n in own_nodes(g):
+            if isinstance(n, ast.For) and ga.cfg.has_node(n):
+                it = strip_sites(ga.term_of(n.iter, ga.cfg.node_of(n)))
+                out.append((g, n, subst(it, binding) if binding else it))
+    return out
